@@ -34,7 +34,7 @@ CFG = PropCfg(
          "beyond, every enum at known/unknown values, times at 0, int64 extremes and before 1970; byte strings: "
          "real encodings as is, with trailing bytes, truncated at every short prefix, with single bytes changed, "
          "hand-made chunk headers, every message-type and flag byte, random bytes.  C18junk: tube-facing readers "
-         "on valid, damaged, truncated and random input with announced lengths up to 32 MiB; observable "
+         "on valid, damaged, truncated and random input with announced lengths up to 4 MiB; observable "
          "ok|err|panic plus whether runtime.MemStats.TotalAlloc grew by more than 256 KiB during the call.  "
          "distinct_nontrivial counts distinct operation lines.",
     assumptions=["time values are int64 Unix seconds (what time.Time.Unix() returns)",
